@@ -9,3 +9,4 @@ pub mod num;
 pub mod oracle;
 pub mod props;
 pub mod rng;
+pub mod trace;
